@@ -31,6 +31,7 @@ def Expr.noLayoutE : Expr → Prop
   | .asrt _ _ _ _ b a => noLayout b ∧ noLayout a
   | .sel _ _ _ _ b a => noLayout b ∧ noLayout a
   | .selOr _ _ _ _ _ _ _ b a => noLayout b ∧ noLayout a
+  | .lam _ _ _ _ _ b a => noLayout b ∧ noLayout a
 def allNoLayout : List Expr → Prop
   | [] => True
   | e :: rest => e.noLayoutE ∧ allNoLayout rest
@@ -63,6 +64,7 @@ theorem noLayoutE_before {e : Expr} (h : e.noLayoutE) : noLayout e.before := by
   | asrt c bd x y b a => exact h.1
   | sel e ats g ab b a => exact h.1
   | selOr e ats g ab d dg db b a => exact h.1
+  | lam n c g k bd b a => exact h.1
 theorem noLayoutE_after {e : Expr} (h : e.noLayoutE) : noLayout e.after := by
   cases e with
   | leaf k t b a => exact h.2
@@ -75,6 +77,7 @@ theorem noLayoutE_after {e : Expr} (h : e.noLayoutE) : noLayout e.after := by
   | asrt c bd x y b a => exact h.2
   | sel e ats g ab b a => exact h.2
   | selOr e ats g ab d dg db b a => exact h.2
+  | lam n c g k bd b a => exact h.2
 theorem noLayoutE_setBefore {e : Expr} (h : e.noLayoutE) {b : List Trivia} (hb : noLayout b) : (e.setBefore b).noLayoutE := by
   cases e with
   | leaf k t b' a => exact ⟨hb, h.2⟩
@@ -87,6 +90,7 @@ theorem noLayoutE_setBefore {e : Expr} (h : e.noLayoutE) {b : List Trivia} (hb :
   | asrt c bd x y b' a => exact ⟨hb, h.2⟩
   | sel e ats g ab b' a => exact ⟨hb, h.2⟩
   | selOr e ats g ab d dg db b' a => exact ⟨hb, h.2⟩
+  | lam n c g k bd b' a => exact ⟨hb, h.2⟩
 theorem noLayoutE_addAfter {e : Expr} (h : e.noLayoutE) {a : List Trivia} (ha : noLayout a) : (e.addAfter a).noLayoutE := by
   have haa := noLayout_append.mpr ⟨noLayoutE_after h, ha⟩
   cases e with
@@ -100,6 +104,7 @@ theorem noLayoutE_addAfter {e : Expr} (h : e.noLayoutE) {a : List Trivia} (ha : 
   | asrt c bd x y b a' => exact ⟨h.1, haa⟩
   | sel e ats g ab b a' => exact ⟨h.1, haa⟩
   | selOr e ats g ab d dg db b a' => exact ⟨h.1, haa⟩
+  | lam n c g k bd b a' => exact ⟨h.1, haa⟩
 
 theorem allNoLayout_append : ∀ {a b : List Expr}, allNoLayout a → allNoLayout b → allNoLayout (a ++ b)
   | [], _, _, hb => hb
@@ -283,6 +288,7 @@ theorem cst_noLayout : (c : Cst) → c.wf = true → containsNL c.flatten = fals
     | app n x g' fa b' a' => simp only [Expr.before] at heb; simp only [Expr.after] at hea; subst heb; subst hea; exact ⟨noLayout_nil, noLayout_nil⟩
     | sel ee ats g' ab b' a' => simp only [Expr.before] at heb; simp only [Expr.after] at hea; subst heb; subst hea; exact ⟨noLayout_nil, noLayout_nil⟩
     | selOr ee ats g' ab d dg db b' a' => simp only [Expr.before] at heb; simp only [Expr.after] at hea; subst heb; subst hea; exact ⟨noLayout_nil, noLayout_nil⟩
+    | lam nn cc g' kk bd b' a' => simp only [Expr.before] at heb; simp only [Expr.after] at hea; subst heb; subst hea; exact ⟨noLayout_nil, noLayout_nil⟩
     | list v m inn b' a' => simp only [Cst.parse] at hp; (repeat' split at hp) <;> first | cases hp | (injection hp with hp; (try split at hp) <;> cases hp)
     | set v m r inn b' a' => simp only [Cst.parse] at hp; (repeat' split at hp) <;> first | cases hp | (injection hp with hp; (try split at hp) <;> cases hp)
     | binding n v g' b' a' => simp only [Cst.parse] at hp; (repeat' split at hp) <;> first | cases hp | (injection hp with hp; (try split at hp) <;> cases hp)
@@ -300,6 +306,11 @@ theorem cst_noLayout : (c : Cst) → c.wf = true → containsNL c.flatten = fals
       cases hpd : d.parse with
       | error err => rw [hpd] at hp; cases hp
       | ok de => rw [hpd] at hp; injection hp with hp; subst hp; exact ⟨noLayout_nil, noLayout_nil⟩
+  | .lam n c1 g1 c2 g2 b, _, _, ex, hp => by
+    simp only [Cst.parse] at hp
+    cases hpb : b.parse with
+    | error err => rw [hpb] at hp; cases hp
+    | ok be => rw [hpb] at hp; injection hp with hp; subst hp; exact ⟨noLayout_nil, noLayout_nil⟩
 theorem items_noLayout : (its : Items) → ∀ (m : Mode) (cg : Text) (st st' : SeqSt), its.wf m cg = true →
     containsNL (its.flatten ++ cg) = false → its.parseSeq m st = .ok st' →
     allNoLayout st.items ∧ noLayout st.before → allNoLayout st'.items ∧ noLayout st'.before
@@ -391,6 +402,7 @@ theorem noLayoutE_effAfter {e : Expr} (h : e.noLayoutE) : noLayout (e.effAfter f
   | asrt c bd x y b a => exact h.2
   | sel e ats g ab b a => exact h.2
   | selOr e ats g ab d dg db b a => exact h.2
+  | lam n c g k bd b a => exact h.2
 
 theorem ok_effAfter {e : Expr} (h : e.ok) : TrivOk (e.effAfter false) := by
   cases e with
@@ -406,6 +418,7 @@ theorem ok_effAfter {e : Expr} (h : e.ok) : TrivOk (e.effAfter false) := by
   | asrt c bd x y b a => exact h.2.2.2.2.2
   | sel e ats g ab b a => exact h.2.2.2.2.2
   | selOr e ats g ab d dg db b a => exact h.2.2.2.2.2.2.2
+  | lam n c g k bd b a => exact h.2.2.2.2
 
 theorem allClosed_of_noLayout : ∀ {es : List Expr}, allOk es → allNoLayout es → allClosed es
   | [], _, _ => trivial
@@ -424,6 +437,7 @@ def Expr.flatClosed : Expr → Prop
   | .asrt .. => True
   | .sel .. => True
   | .selOr .. => True
+  | .lam .. => True
 def allFlatClosed : List Expr → Prop
   | [] => True
   | e :: rest => e.flatClosed ∧ allFlatClosed rest
@@ -581,6 +595,11 @@ theorem cst_flat : (c : Cst) → c.wf = true → ∀ (e : Expr), c.parse = .ok e
       cases hpd : d.parse with
       | error err => rw [hpd] at hp; cases hp
       | ok de => rw [hpd] at hp; injection hp with hp; subst hp; trivial
+  | .lam n c1 g1 c2 g2 b, _, ex, hp => by
+    simp only [Cst.parse] at hp
+    cases hpb : b.parse with
+    | error err => rw [hpb] at hp; cases hp
+    | ok be => rw [hpb] at hp; injection hp with hp; subst hp; trivial
 theorem items_flat : (its : Items) → ∀ (m : Mode) (cg : Text) (st st' : SeqSt), its.wf m cg = true →
     its.parseSeq m st = .ok st' → allFlatClosed st.items → allFlatClosed st'.items
   | .nil, m, cg, st, st', _, hp, h => by
@@ -666,6 +685,7 @@ theorem inlineClean_of_flat : (e : Expr) → e.beforeFlatB = true → e.flatClos
   | .asrt .., h, _ => by simp [Expr.beforeFlatB] at h
   | .sel .., h, _ => by simp [Expr.beforeFlatB] at h
   | .selOr .., h, _ => by simp [Expr.beforeFlatB] at h
+  | .lam .., h, _ => by simp [Expr.beforeFlatB] at h
 theorem allInlineClean_of_flat : (es : List Expr) → allBeforeFlatB es = true → allFlatClosed es → allInlineClean es
   | [], _, _ => trivial
   | e :: rest, h, hf => by
